@@ -70,8 +70,8 @@ impl Scenario for C17Twin {
     }
     fn runs(&self, tier: Tier) -> u64 {
         match tier {
-            Tier::Quick => 40_000,
-            Tier::Thorough => 2_500_000,
+            Tier::Quick => 30_000,
+            Tier::Thorough => 2_000_000,
         }
     }
     fn describe(&self) -> &'static str {
@@ -149,7 +149,7 @@ impl Scenario for C17Twin {
             let serial_world = serial_world.clone();
             let twin_world = twin_world.clone();
             bodies.push(Box::new(move |me| {
-                let wire = PipeWire { cx: cx.clone(), sched: sched.clone(), me, rx: 1, tx: 0, frag, eintr_den, eintr_run: 0, short_writes };
+                let wire = PipeWire { cx: cx.clone(), sched: sched.clone(), me, rx: 1, tx: 0, frag, eintr_den, eintr_run: 0, eintr_left: 0, short_writes };
                 let port = SimPort::new(wire, Device::default_odd());
                 let sbus = match SerialSignBus::try_new(port) {
                     Ok(b) => Rc::new(RefCell::new(b)),
@@ -232,7 +232,7 @@ impl Scenario for C17Twin {
             let serial_world = serial_world.clone();
             let bridge_errors = bridge_errors.clone();
             bodies.push(Box::new(move |me| {
-                let wire = PipeWire { cx: cx.clone(), sched: sched.clone(), me, rx: 0, tx: 1, frag, eintr_den, eintr_run: 0, short_writes };
+                let wire = PipeWire { cx: cx.clone(), sched: sched.clone(), me, rx: 0, tx: 1, frag, eintr_den, eintr_run: 0, eintr_left: 0, short_writes };
                 let port = SimPort::new(wire, Device::default_odd());
                 let mut odk = match Odk::try_new(port, DirectBus(serial_world)) {
                     Ok(o) => o,
@@ -293,6 +293,44 @@ impl Scenario for C17Twin {
 // bridge sub-scenario
 // ---------------------------------------------------------------------------------------------
 
+/// A bus behind the bridge that answers whatever the tape says -- including nothing, and
+/// including exactly the message it was given (the bridge is generic over the bus; the
+/// property's bridge clause does not depend on what kind of bus it drives).
+struct ScriptedBus {
+    cx: Cx,
+    addrs: Vec<Address>,
+}
+
+impl flipdot_core::SignBus for ScriptedBus {
+    fn process_message<'a>(&mut self, message: Message<'_>) -> crate::bus::BusResult<'a> {
+        Ok(match self.cx.draw(6) {
+            0 | 1 => None,
+            2 => {
+                self.cx.probe("bus_reply_equals_request");
+                Some(gens::to_static(&message))
+            }
+            3 => Some(Message::ReportState(*self.cx.pick(&self.addrs), gens::ALL_STATES[self.cx.draw(13) as usize])),
+            4 => Some(Message::AckOperation(*self.cx.pick(&self.addrs), gens::ALL_OPS[self.cx.draw(6) as usize])),
+            _ => Some(gens::raw_message(&self.cx, &self.addrs)),
+        })
+    }
+}
+
+/// Either the real virtual bus or the scripted one.
+enum BridgeBus {
+    Real(DirectBus),
+    Scripted(ScriptedBus),
+}
+
+impl flipdot_core::SignBus for BridgeBus {
+    fn process_message<'a>(&mut self, message: Message<'_>) -> crate::bus::BusResult<'a> {
+        match self {
+            BridgeBus::Real(b) => b.process_message(message),
+            BridgeBus::Scripted(b) => b.process_message(message),
+        }
+    }
+}
+
 #[derive(Clone, Debug)]
 struct SharedWire(Arc<Mutex<ScriptWire>>);
 
@@ -314,8 +352,8 @@ impl Scenario for C17Bridge {
     }
     fn runs(&self, tier: Tier) -> u64 {
         match tier {
-            Tier::Quick => 100_000,
-            Tier::Thorough => 10_000_000,
+            Tier::Quick => 60_000,
+            Tier::Thorough => 6_000_000,
         }
     }
     fn describe(&self) -> &'static str {
@@ -343,7 +381,17 @@ impl Scenario for C17Bridge {
                     let _ = shadow.step(&m);
                     lines.push((Frame::from(m).to_bytes_with_newline(), "known-or-unknown"));
                 }
-                5 => lines.push((gens::unknown_frame(cx).to_bytes_with_newline(), "unknown")),
+                5 => {
+                    if cx.chance(1, 3) {
+                        // a frame terminated by a bare LF: an undecodable line of its own
+                        let mut l = Frame::from(gens::raw_message(cx, &addrs)).to_bytes();
+                        l.push(b'\n');
+                        lines.push((l, "bare-lf"));
+                        cx.probe("undecodable_line_at_bridge");
+                    } else {
+                        lines.push((gens::unknown_frame(cx).to_bytes_with_newline(), "unknown"));
+                    }
+                }
                 6 => {
                     let mut l = Frame::from(gens::raw_message(cx, &addrs)).to_bytes_with_newline();
                     let body = l.len() - 2;
@@ -376,7 +424,12 @@ impl Scenario for C17Bridge {
         w.short_writes = cx.chance(1, 2);
         let wire = Arc::new(Mutex::new(w));
         let port = SimPort::new(SharedWire(wire.clone()), Device::default_odd());
-        let (rec, history) = RecordingBus::new(DirectBus(world.clone()));
+        let scripted = cx.chance(1, 3);
+        if scripted {
+            cx.probe("scripted_bus_behind_the_bridge");
+        }
+        let inner = if scripted { BridgeBus::Scripted(ScriptedBus { cx: cx.clone(), addrs: addrs.clone() }) } else { BridgeBus::Real(DirectBus(world.clone())) };
+        let (rec, history) = RecordingBus::new(inner);
         let mut odk = match Odk::try_new(port, rec) {
             Ok(o) => o,
             Err(e) => {
